@@ -1582,6 +1582,14 @@ InsertItemsAt(uint32 index, const ItemType * items, uint32 numNewItems)
    const uint32 oldSize = GetNumItems();
    if (WillUnsignedAddOverflow(oldSize, numNewItems)) return B_RESOURCE_LIMIT;
 
+   if (IsItemLocatedInThisContainer(*items))
+   {
+      // Guard against overwriting (or plundering) the source material as we insert
+      Queue<ItemType> tempQ;
+      MRETURN_ON_ERROR(tempQ.AddTailMulti(items, numNewItems));
+      return InsertItemsAt(index, tempQ);
+   }
+
    const uint32 newSize = oldSize+numNewItems;
 
    ItemType * oldItems = NULL;  // set NULL just to keep the static analyzer happy
